@@ -129,41 +129,79 @@ func checkC05(c *Ctx) {
 		})
 		c.Check(w == nil, "C05.3", "OnLocalTimeout: a timeout is broadcast on every non-error path", p.FuncPos(olt),
 			"every path to a return passes sender.Timeout(...) unless LocalTimeoutRule returned an error", "a return at "+posOf(p, w)+" is reachable without broadcasting a timeout")
-		// resend of the stored timeout only for the same view; fresh one is stored and fed to the local collector
-		okResend, okFresh := false, false
-		for _, s := range callsIn(olt, false, func(cc *ssa.CallCommon) bool { return cc.IsInvoke() && cc.Method.Name() == "Timeout" }) {
-			arg := fo.K.Key(s.Common().Args[0])
-			facts := fo.At(s)
-			if strings.HasPrefix(arg, "*p0->hs/protocol/synchronizer.Synchronizer.lastTimeout") {
-				if hasCmp(facts, "==", contains("Synchronizer.lastTimeout->hs.TimeoutMsg.View"), func(k string) bool { return strings.HasPrefix(k, "(*hs/protocol.ViewStates).View(") }) &&
-					notNilOf(facts, is("p0->hs/protocol/synchronizer.Synchronizer.lastTimeout")) {
+		// resend of the stored timeout only for the same view; fresh one is stored and fed to the local collector.
+		// The three uses of the fresh message may sit in private helpers of the package: they are found from the
+		// handler (deep sites) and tied to the result of LocalTimeoutRule by a value slice through helper
+		// parameters and results.
+		sliceEnterHelpers, sliceProg = funcPkgPath(olt), p
+		isFresh := func(v ssa.Value) bool {
+			return backwardSliceOpt(v, true, func(x ssa.Value) bool {
+				ex, ok := x.(*ssa.Extract)
+				if !ok || ex.Index != 0 {
+					return false
+				}
+				call, ok := ex.Tuple.(*ssa.Call)
+				return ok && call.Call.IsInvoke() && call.Call.Method.Name() == "LocalTimeoutRule"
+			})
+		}
+		isStored := func(v ssa.Value) bool {
+			return backwardSliceOpt(v, true, func(x ssa.Value) bool {
+				u, ok := x.(*ssa.UnOp)
+				if !ok {
+					return false
+				}
+				fa, ok := u.X.(*ssa.FieldAddr)
+				return ok && strings.HasSuffix(fieldName(fa.X.Type(), fa.Field), "Synchronizer.lastTimeout")
+			})
+		}
+		okResend, sentFresh := false, false
+		for _, ds := range deepSites(fo, func(cc *ssa.CallCommon) bool {
+			return cc.IsInvoke() && cc.Method.Name() == "Timeout" && strings.Contains(cc.Value.Type().String(), "core.Sender")
+		}, 0) {
+			arg := ds.Site.Common().Args[0]
+			switch {
+			case isFresh(arg):
+				sentFresh = true
+			case isStored(arg):
+				if hasCmp(ds.Facts, "==", contains("Synchronizer.lastTimeout->hs.TimeoutMsg.View"), func(k string) bool { return strings.HasPrefix(k, "(*hs/protocol.ViewStates).View(") }) &&
+					notNilOf(ds.Facts, is("p0->hs/protocol/synchronizer.Synchronizer.lastTimeout")) {
 					okResend = true
 				}
 			}
-			if strings.Contains(arg, "TimeoutRuler).LocalTimeoutRule(") {
-				rk := strings.TrimPrefix(arg, "*")
-				fed := false
-				for _, o := range callsIn(olt, false, func(cc *ssa.CallCommon) bool { return calleeIs(cc, ort) }) {
-					if fo.K.Key(o.Common().Args[1]) == arg {
-						fed = true
-					}
-				}
-				stored := false
-				eachInstr(olt, func(in ssa.Instruction) {
-					if st, ok := in.(*ssa.Store); ok {
-						if fa, ok := st.Addr.(*ssa.FieldAddr); ok && strings.HasSuffix(fieldName(fa.X.Type(), fa.Field), "Synchronizer.lastTimeout") && fo.K.Key(st.Val) == rk {
-							stored = true
-						}
-					}
-				})
-				if fed && stored {
-					okFresh = true
+		}
+		// position of a deep instruction in the handler: itself, or the handler's call that leads to it
+		var storePos, fedPos, storeIn, fedIn ssa.Instruction
+		for _, d := range deepInstrs(fo, func(in ssa.Instruction) bool {
+			st, ok := in.(*ssa.Store)
+			if !ok {
+				return false
+			}
+			fa, ok := st.Addr.(*ssa.FieldAddr)
+			return ok && strings.HasSuffix(fieldName(fa.X.Type(), fa.Field), "Synchronizer.lastTimeout")
+		}, 0) {
+			if isFresh(d.Instr.(*ssa.Store).Val) {
+				storeIn, storePos = d.Instr, d.Instr
+				if len(d.Path) > 0 {
+					storePos = d.Path[0]
 				}
 			}
 		}
+		for _, ds := range deepSites(fo, func(cc *ssa.CallCommon) bool { return calleeIs(cc, ort) }, 0) {
+			if isFresh(ds.Site.Common().Args[1]) {
+				fedIn, fedPos = ds.Site, ds.Site
+				if ds.Via != nil {
+					fedPos = ds.Via
+				}
+			}
+		}
+		sliceEnterHelpers, sliceProg = "", nil
+		stored, fed := storeIn != nil, fedIn != nil
+		_, _ = storePos, fedPos
+		// (the order of remembering and counting is immaterial: the resend gate compares the remembered view)
+		okFresh := sentFresh && stored && fed
 		c.Check(okResend && okFresh, "C05.3", "OnLocalTimeout: resend for the same view, otherwise a fresh timeout that is remembered and counted locally", p.FuncPos(olt),
 			"the stored timeout is resent only while lastTimeout.View equals the current view; a fresh one is stored in lastTimeout and passed to OnRemoteTimeout",
-			"resend gate: "+boolStr(okResend)+", fresh timeout stored and fed to the collector: "+boolStr(okFresh))
+			"resend gate: "+boolStr(okResend)+", fresh timeout sent: "+boolStr(sentFresh)+", stored: "+boolStr(stored)+", fed to the collector: "+boolStr(fed))
 	}
 	// timer event -> OnLocalTimeout for the current view only
 	{
@@ -335,32 +373,26 @@ func checkC05(c *Ctx) {
 			}
 		}
 		// every LocalTimeoutRule call (fresh timeout) is preceded by ViewTimeout; the resend path does not call it
+		// (call sites in the handler or in private helpers of its package, facts in the handler's terms)
 		okFresh, okResend := true, true
 		nRule := 0
-		eachInstr(olt, func(in ssa.Instruction) {
-			ci, ok := in.(ssa.CallInstruction)
-			if !ok || !ci.Common().IsInvoke() {
-				return
+		viewTimeoutBefore := func(fs FactSet) bool {
+			return afterOf(fs, func(k string) bool { return strings.Contains(k, "ViewDuration).ViewTimeout(") })
+		}
+		for _, ds := range deepSites(fo, func(cc *ssa.CallCommon) bool { return cc.IsInvoke() && cc.Method.Name() == "LocalTimeoutRule" }, 0) {
+			nRule++
+			if !viewTimeoutBefore(ds.Facts) {
+				okFresh = false
 			}
-			switch ci.Common().Method.Name() {
-			case "LocalTimeoutRule":
-				nRule++
-				if !afterOf(fo.At(in), func(k string) bool { return strings.Contains(k, "ViewDuration).ViewTimeout(") }) {
-					okFresh = false
-				}
-			case "Timeout":
-				if strings.HasPrefix(fo.K.Key(ci.Common().Args[0]), "*p0->hs/protocol/synchronizer.Synchronizer.lastTimeout") &&
-					afterOf(fo.At(in), func(k string) bool { return strings.Contains(k, "ViewDuration).ViewTimeout(") }) {
-					okResend = false
-				}
+		}
+		for _, ds := range deepSites(fo, func(cc *ssa.CallCommon) bool { return cc.IsInvoke() && cc.Method.Name() == "Timeout" }, 0) {
+			if strings.HasPrefix(ds.Args[0], "*p0->hs/protocol/synchronizer.Synchronizer.lastTimeout") && viewTimeoutBefore(ds.Facts) {
+				okResend = false
 			}
-		})
-		nVT := 0
-		eachInstr(olt, func(in ssa.Instruction) {
-			if isDur("ViewTimeout")(in) {
-				nVT++
-			}
-		})
+		}
+		nVT := len(deepSites(fo, func(cc *ssa.CallCommon) bool {
+			return cc.IsInvoke() && cc.Method.Name() == "ViewTimeout" && strings.Contains(cc.Value.Type().String(), "ViewDuration")
+		}, 0))
 		c.Check(okFresh && okResend && nRule > 0 && nVT == 1, "C05.11", "OnLocalTimeout: a failed view lengthens the timeout once", p.FuncPos(olt),
 			"duration.ViewTimeout() precedes every fresh timeout and is not reached on the re-send path", "fresh path ok: "+boolStr(okFresh)+", resend path ok: "+boolStr(okResend)+", call sites: "+itoa(nVT))
 		var bad []string
@@ -445,6 +477,8 @@ func checkC05(c *Ctx) {
 	}
 
 	// C05.4 / C05.5 imported
+	// "provided client commands are available": what the clients submitted is offered to the proposer
+	c.importFrom(checkC15, "C05.14", "C15.9", "C15.2", "C15.3")
 	c.importFrom(checkC08, "C05.4", "C08.5")
 	c.importFrom(checkC08, "C05.5", "C08.3")
 }
